@@ -56,6 +56,15 @@
 #include "harness/common.hpp"
 #include "harness/C14_files.hpp"
 
+#if __has_include(<valgrind/helgrind.h>)
+#include <valgrind/helgrind.h>
+#define C14_HG_IGNORE(p, n) VALGRIND_HG_DISABLE_CHECKING(p, n)
+#define C14_HG_UNIGNORE(p, n) VALGRIND_HG_ENABLE_CHECKING(p, n)
+#else
+#define C14_HG_IGNORE(p, n) ((void)0)
+#define C14_HG_UNIGNORE(p, n) ((void)0)
+#endif
+
 #if defined(__SANITIZE_THREAD__)
 extern "C" void AnnotateBenignRaceSized(const char* file, int line, const volatile void* mem, size_t size, const char* desc);
 #endif
@@ -242,6 +251,12 @@ struct Shared {
   {
     for (auto& q : P.poly) { poly.AddPoint(q.first, q.second); pline.AddPoint(q.first, q.second);
                              polye.AddPoint(q.first, q.second); polyr.AddPoint(q.first, q.second); }
+    // same exclusion for the helgrind pass (client requests; no-ops outside valgrind)
+    if (annotate_counters()) {
+      C14_HG_IGNORE(&(inter.*get(IcTag0())), sizeof(long long)); C14_HG_IGNORE(&(inter.*get(IcTag1())), sizeof(long long));
+      C14_HG_IGNORE(&(inter.*get(IcTag2())), sizeof(long long)); C14_HG_IGNORE(&(inter.*get(IcTag3())), sizeof(long long));
+      C14_HG_IGNORE(&(inter.*get(IcTag4())), sizeof(long long));
+    }
 #if defined(__SANITIZE_THREAD__)
     // The five Intersect counters are documented as mutable and not thread safe and are excluded by
     // the property; every other byte of the Intersect object stays monitored.
@@ -253,6 +268,11 @@ struct Shared {
     AnnotateBenignRaceSized(__FILE__, __LINE__, &(inter.*get(IcTag4())), sizeof(long long), "documented Intersect counter _cnt4");
     }
 #endif
+  }
+  ~Shared() {
+    C14_HG_UNIGNORE(&(inter.*get(IcTag0())), sizeof(long long)); C14_HG_UNIGNORE(&(inter.*get(IcTag1())), sizeof(long long));
+    C14_HG_UNIGNORE(&(inter.*get(IcTag2())), sizeof(long long)); C14_HG_UNIGNORE(&(inter.*get(IcTag3())), sizeof(long long));
+    C14_HG_UNIGNORE(&(inter.*get(IcTag4())), sizeof(long long));
   }
   Shared(const Shared&) = delete;
 };
